@@ -102,6 +102,45 @@ Theorem C20_fit_inject_length : forall img es off,
 Proof. exact FitT.fit_inject_length. Qed.
 Print Assumptions C20_fit_inject_length.
 
+(* ================= Boot Guard / CBnT manifests (pkg/intel/metadata/bg, cbnt) ================= *)
+
+(* The generated ReadFrom of all 33 structures is ONE structurally recursive decoder over the
+   schemas of Gen/ManifestCodecs.v; it returns an option (None = error) and has no Panic.
+   It is a bounded reader: what it leaves is a suffix of what it was given. *)
+Theorem C20_manifest_read_suffix : forall d b v r, Manifest.read d b = Some (v, r) ->
+  (exists pre, b = pre ++ r) /\ zlen r <= zlen b.
+Proof. exact ManT.manifest_read_desc_suffix. Qed.
+Print Assumptions C20_manifest_read_suffix.
+
+(* every countType of every generated structure and container element is at most 16 bits wide *)
+Theorem C20_manifest_counts16 :
+  forallb (fun x => ManT.counts16_s (Manifest.sd_schema (snd (fst x)))) ManifestCodecs.all_structs = true /\
+  forallb (fun x => ManT.counts16_c (snd (fst x))) ManifestCodecs.all_containers = true.
+Proof. exact (conj ManT.all_structs_counts16 ManT.all_containers_counts16). Qed.
+Print Assumptions C20_manifest_counts16.
+
+(* hence every number the decoder hands to make() for a dynamic field (req_f: the count prefix
+   just read, or the countValue expression reduced to the count type) is below 65536 ... *)
+Theorem C20_manifest_request_bound : forall t en b n, ManT.counts16_f t = true -> bytes_ok b = true ->
+  ManT.req_f t en b = Some n -> 0 <= n < 65536.
+Proof. exact ManT.req_f_bound. Qed.
+Print Assumptions C20_manifest_request_bound.
+
+(* ... and every list and blob of a value read from any generated structure has fewer than
+   65536 items / bytes: allocation <= 65535 x element size per dynamic field *)
+Theorem C20_manifest_value_bounded : forall nm d ir b v r,
+  In (nm, d, ir) ManifestCodecs.all_structs -> bytes_ok b = true -> Manifest.read d b = Some (v, r) ->
+  ManT.size_bounded_s (Manifest.sd_schema d) v = true.
+Proof. exact ManT.manifest_read_bounded_all. Qed.
+Print Assumptions C20_manifest_value_bounded.
+
+(* the two container manifests (element dispatch loop): fuel S (length b) suffices, because a
+   successful StructInfo read consumes at least one byte *)
+Theorem C20_manifest_cread_total : forall nm c ir b,
+  In (nm, c, ir) ManifestCodecs.all_containers -> total (Manifest.cread c b).
+Proof. exact ManT.manifest_cread_total_all. Qed.
+Print Assumptions C20_manifest_cread_total.
+
 (* ================= AMD firmware, directories, keys (pkg/amd/manifest, pkg/amd/psb) ================= *)
 
 Theorem C20_amd_parse_firmware_total : forall image, bytes_ok image = true ->
@@ -156,6 +195,20 @@ Theorem C20_amd_patch_bios_entry_total : forall image fw level id inst d, bytes_
   Amd.parse_firmware image = Ok fw -> total (Amd.patch_bios_entry fw image level id inst d).
 Proof. exact AmdT.amd_patch_bios_entry_total. Qed.
 Print Assumptions C20_amd_patch_bios_entry_total.
+
+(* the same for any implementation of the Firmware interface's address map and for ANY image
+   handed to extract / patch (not necessarily the one that was parsed) *)
+Theorem C20_amd_extract_psp_entry_total_with : forall p2o image fw image' level id,
+  bytes_ok image = true -> Amd.parse_firmware_with p2o image = Ok fw ->
+  total (Amd.extract_psp_entry fw image' level id).
+Proof. exact AmdT.amd_extract_psp_entry_total_with. Qed.
+Print Assumptions C20_amd_extract_psp_entry_total_with.
+
+Theorem C20_amd_patch_psp_entry_total_with : forall p2o image fw image' level id d,
+  bytes_ok image = true -> Amd.parse_firmware_with p2o image = Ok fw ->
+  total (Amd.patch_psp_entry fw image' level id d).
+Proof. exact AmdT.amd_patch_psp_entry_total_with. Qed.
+Print Assumptions C20_amd_patch_psp_entry_total_with.
 
 Theorem C20_amd_is_psb_enabled_total : forall fw, total (Amd.is_psb_enabled fw).
 Proof. exact AmdT.amd_is_psb_enabled_total. Qed.
@@ -301,4 +354,39 @@ Proof. vm_compute. reflexivity. Qed.
 Example ex_fsp :
   match Misc.fsp_parse ([70;83;80;72; 72;0;0;0; 0;0; 32; 3] ++ zrepeat 7 60) with
   | Ok h => Misc.fsp_rev h | _ => -1 end = 3.
+Proof. vm_compute. reflexivity. Qed.
+
+(* a flash map whose only area claims 4 GiB - 1 bytes of a 266-byte image: Read accepts it,
+   ReadArea answers with an error *)
+Definition ex_map : Fmap.fmap :=
+  Fmap.mkFmap (Fmap.mkHeader fmap_signature 1 1 0 4096 ([70] ++ zrepeat 0 31) 1)
+              [Fmap.mkArea 0 (2 ^ 32 - 1) ([65] ++ zrepeat 0 31) 1].
+Definition ex_fmap_img : bytes := Fmap.write (zrepeat 255 200) ex_map 10.
+
+Example ex_fmap_hostile :
+  bytes_ok ex_fmap_img = true /\ Fmap.read ex_fmap_img = Ok (ex_map, 10) /\
+  Fmap.read_area ex_map ex_fmap_img 0 = Err Fmap.E_EOF /\
+  Misc.read_area_alloc (zlen ex_fmap_img) 0 (2 ^ 32 - 1) = 4496.
+Proof. vm_compute. repeat split; reflexivity. Qed.
+
+(* an image that is just an embedded firmware structure without directories parses (under an
+   address map that puts the first probed address at offset 0): the hypothesis of the
+   extraction / patching theorems is satisfiable, and extraction answers with an error *)
+Definition ex_efs_img : bytes := le_enc 4 amd_efs_signature ++ zrepeat 0 70.
+Example ex_amd_parse :
+  bytes_ok ex_efs_img = true /\
+  match Amd.parse_firmware_with (Amd.shifted_map 4294574080) ex_efs_img with
+  | Ok fw => is_ok (Amd.extract_psp_entry fw ex_efs_img 1 0) | _ => true end = false.
+Proof. vm_compute. split; reflexivity. Qed.
+
+(* a cbnt Key read from 9 bytes: RSA, version 0x10, KeySize 0 -> 4 bytes of data *)
+Example ex_manifest_key :
+  match Manifest.read ManifestCodecs.cbnt_Key_desc [1;0; 16; 0;0; 1;0;1;0; 99] with
+  | Some (_, r) => r | None => [] end = [99].
+Proof. vm_compute. reflexivity. Qed.
+
+(* a count of 65535 hash entries announced by a 4-byte input is an error, not an allocation
+   the model could make: the decoder stops at the first missing item *)
+Example ex_manifest_hostile_count :
+  Manifest.read ManifestCodecs.cbnt_HashList_desc [255;255; 255;255] = None.
 Proof. vm_compute. reflexivity. Qed.
